@@ -68,7 +68,7 @@ add("C13", "fault_enumeration",
     "plus bounded-exhaustive paths with the cause at every position. Expected value per cause from the model; `run() returned although no cause was injected` is also a violation. "
     "distinct = distinct (cause, parameters, state) tuples / abstract trace shapes.",
     {"quick": ["checked"], "thorough": ["checked", "fast"]},
-    {"quick": {"terminations_checked": 2000, "connect_outcomes_checked": 80, "connect_faults_checked": 50}, "thorough": {"terminations_checked": 100000}})
+    {"quick": {"terminations_checked": 2000, "connect_outcomes_checked": 80, "connect_faults_checked": 50}, "thorough": {"terminations_checked": 50000}})
 
 add("C14", "fault_enumeration",
     "crash-point enumeration: drop(context) is offered at every step of every bounded path (operations created-not-polled, queued behind a stalled writer, awaiting their ack, between the QoS 2 phases, "
